@@ -286,13 +286,25 @@ def evalb(b: B, env, memo):
     return bool(x < y) if b.op == 'lt' else bool(x <= y) if b.op == 'le' else bool(x == y)
 
 
+LAST_MARGIN = [float('inf')]
+
+
 def run_tree(tree, env):
-    """follow the decision tree on concrete floats -> ('val', [floats]) | ('raise', kind)"""
+    """follow the decision tree on concrete floats -> ('val', [floats]) | ('raise', kind).
+    LAST_MARGIN[0] receives the smallest non-zero |lhs - rhs| over the decisions taken (how close the
+    case is to a branch boundary, where binary64 evaluation order can legitimately flip the branch)."""
     memo = {}
     t = tree
     path = ''
+    LAST_MARGIN[0] = float('inf')
     while isinstance(t, Node):
         c = evalb(t.cond, env, memo)
+        try:
+            d = abs(float(evalf(t.cond.args[0], env, memo)) - float(evalf(t.cond.args[1], env, memo)))
+            if 0.0 < d < LAST_MARGIN[0]:
+                LAST_MARGIN[0] = d
+        except Exception:
+            pass
         path += 'T' if c else 'F'
         t = t.t if c else t.f
     if t.kind == 'raise':
